@@ -70,7 +70,48 @@ theorem environ_site_ok (env env' : Clock.Env) (s : Bytes) (h : Clock.environSet
     ∃ eqs, Clock.indexOf 61 s = some eqs ∧ Clock.EnvOk (s.take eqs) (s.drop (eqs + 1)) :=
   C44.environSet_ok_envOk env env' s h
 
+/-- DRAW/PLAY pointer operands: whatever the type byte, the repaired lookup yields a type or Illegal function call -/
+theorem varptrType_no_host (size : Nat) :
+    (∃ t, varptrType size = .ok t) ∨ varptrType size = .error (.basic PcbV.Gen.E.ifc) := by
+  unfold varptrType
+  cases sizeToType size with
+  | none => exact Or.inr rfl
+  | some t => exact Or.inl ⟨t, rfl⟩
+
+/-- the unrepaired lookup: type byte 7 (as in `DRAW "U="+CHR$(7)+CHR$(0)+CHR$(1)`) is a KeyError -/
+theorem varptrTypeOld_counterexample : varptrTypeOld 7 = .error (.host 2) := by decide
+
+/-- graphics PUT: when the unpacker accepts a buffer, the size record (4 bytes) and all `n` packed bytes lie inside
+    it, so `struct.unpack` has its 4 bytes and the slice has exactly `rowBytes * height` bytes (equal rows) -/
+theorem spriteBytes_ok (bpp len rowBits height n : Nat) (h : spriteBytes bpp len rowBits height = .ok n) :
+    4 + n ≤ len ∧ n = rowBytes bpp rowBits * height := by
+  unfold spriteBytes at h
+  by_cases h1 : len < 4
+  · simp [h1] at h
+  · by_cases h2 : len < 4 + rowBytes bpp rowBits * height
+    · simp [h1, h2] at h
+    · simp [h1, h2] at h
+      omega
+
+/-- the unrepaired unpacker: a one-element integer array (2 bytes) is a struct.error -/
+theorem spriteBytesOld_counterexample : spriteBytesOld 2 2 0 0 = .error (.host 3) := by decide
+
+/-- POINT: a pixel index that is read lies inside the pixel buffer -/
+theorem pointIndex_in_buffer (w h x0 y0 : Nat) (x y a b : Int) (hp : pointIndex w h x0 y0 x y = some (a, b)) :
+    0 ≤ a ∧ a < w ∧ 0 ≤ b ∧ b < h := by
+  unfold pointIndex at hp
+  by_cases h1 : x < 0 ∨ y < 0
+  · simp [h1] at hp
+  · by_cases h2 : x + x0 < w ∧ y + y0 < h
+    · simp [h1, h2] at hp
+      omega
+    · simp [h1, h2] at hp
+
+/-- the unrepaired test: `SCREEN 1: VIEW (10,10)-(50,50): PRINT POINT(0,199)` reads row 209 of 200 -/
+theorem pointIndexOld_counterexample : pointIndexOld 320 200 10 10 0 199 = some (10, 209) := by decide
+
 example : renumTrap [(20, 100), (30, 110)] 10 = .ok 10 ∧ renumTrap [(20, 100), (30, 110)] 30 = .ok 110 := by decide
 example : peekPreset none 5 = .ok none ∧ peekPreset (some [(5, 7)]) 5 = .ok (some 7) := by decide
+example : varptrType 3 = .ok 3 ∧ spriteBytes 2 10 16 3 = .ok 6 ∧ pointIndex 320 200 10 10 0 189 = some (10, 199) := by decide
 
 end PcbV.C01
